@@ -1,4 +1,5 @@
 """C10 — ungrammatical scripts always raise BlackbirdSyntaxError at the offending token."""
+import os
 import random
 import re
 
@@ -184,7 +185,74 @@ def check_text(text, bnf):
     return None, info
 
 
+def check_deep(d, kind):
+    """a stray or missing token at the bottom of d nested brackets: still a BlackbirdSyntaxError at that token
+    (the error path must not need more stack than the parse that led to it)"""
+    inner = {"stray": "1 2", "missing": "1 +", "stray-in-function": "1 2"}[kind]
+    if kind == "stray-in-function":
+        text = "name a\nversion 1.0\n\nG(" + "sin(" * d + inner + ")" * d + ") | 0\n"
+        col = 2 + 4 * d + 2
+    else:
+        text = "name a\nversion 1.0\n\nG(" + "(" * d + inner + ")" * d + ") | 0\n"
+        col = 2 + d + (2 if kind == "stray" else 3)
+    r = core.impl_loads(text)
+    from blackbird.error import BlackbirdSyntaxError
+    if r[0] == "ok":
+        return "ungrammatical script (nesting depth %d) is loaded as a program" % d
+    if not isinstance(r[1], BlackbirdSyntaxError):
+        return "an ungrammatical script with nesting depth %d raises %s instead of BlackbirdSyntaxError" % (d, type(r[1]).__name__)
+    m = re.match(r"Blackbird SyntaxError \(line (\d+):(\d+)\)", str(r[1]))
+    if not m or (int(m.group(1)), int(m.group(2)) - 1) != (4, col):
+        return "nesting depth %d: position %s, the offending token is at 4:%d" % (d, str(r[1])[:50], col + 1)
+    return None
+
+
+def check_file_rewrite(good, bad):
+    """load(path) reads the file as it is NOW: a grammatical file replaced, at the same path, by an
+    ungrammatical text of the same length with the modification time put back, is refused (and the other
+    way round is accepted)"""
+    import blackbird
+    import shutil
+    from blackbird.error import BlackbirdSyntaxError
+    assert len(good.encode("utf-8")) == len(bad.encode("utf-8"))
+    root = oracles.write_tree({"f.xbb": good})
+    path = os.path.join(root, "f.xbb")
+    try:
+        with core.quiet():
+            try:
+                blackbird.load(path)
+            except Exception as e:  # noqa: BLE001
+                return "the grammatical file is refused: %r" % (e,)
+        st = os.stat(path)
+        with open(path, "w", encoding="utf-8") as f:
+            f.write(bad)
+        os.utime(path, ns=(st.st_atime_ns, st.st_mtime_ns))
+        with core.quiet():
+            try:
+                blackbird.load(path)
+                return "after the file was replaced by an ungrammatical text (same length, same mtime) load still returns a program"
+            except BlackbirdSyntaxError:
+                pass
+            except Exception as e:  # noqa: BLE001
+                return "the ungrammatical file raises %r instead of BlackbirdSyntaxError" % (e,)
+        with open(path, "w", encoding="utf-8") as f:
+            f.write(good)
+        os.utime(path, ns=(st.st_atime_ns, st.st_mtime_ns))
+        with core.quiet():
+            try:
+                blackbird.load(path)
+            except Exception as e:  # noqa: BLE001
+                return "after the grammatical text was put back load raises %r" % (e,)
+        return None
+    finally:
+        shutil.rmtree(root, ignore_errors=True)
+
+
 def replay(ctx, data):
+    if data.get("kind") == "file_rewrite":
+        return check_file_rewrite(data["good"], data["bad"])
+    if data.get("kind") == "deep":
+        return check_deep(data["depth"], data["what"])
     if data.get("kind") == "syntax":
         return check_text(data["text"], g4.load_bnf(core.REPO))[0]
     return oracles.generic_replay(data)
@@ -222,7 +290,7 @@ def run(ctx):
                 "(grammatical? first token at which no sentence can continue); oracle on the implementation: "
                 "grammatical <=> passes the syntax stage; ungrammatical => BlackbirdSyntaxError from the syntax "
                 "stage and from loads, message position (1-based column) is the start of a token not earlier than "
-                "the first bad token; model parser verdict vs Earley verdict; non-trivial = ungrammatical input "
+                "the first bad token; a stray / missing token at the bottom of 40-800 nested brackets (below the depth at which the parser itself exhausts the stack) must still be reported as BlackbirdSyntaxError at that token; a file replaced at the same path by an ungrammatical text of the same length and modification time; model parser verdict vs Earley verdict; non-trivial = ungrammatical input "
                 "with at least 5 tokens; distinct by text")
     bnf = g4.load_bnf(core.REPO)
     patch_listener()
@@ -281,4 +349,24 @@ def run(ctx):
                          {"kind": "correspondence", "cmd": "SYNTAX", "text": t})
         else:
             ctx.traces += 1
+    for d in (40, 200, 350, 500, 650, 800):
+        for kind in ("stray", "missing") + (("stray-in-function",) if d <= 200 else ()):
+            ctx.count("deep-nesting-with-a-fault")
+            ctx.case(("deep", d, kind), nontrivial=True)
+            msg = check_deep(d, kind)
+            if msg:
+                ctx.violation("syntax stage: " + msg, {"kind": "deep", "depth": d, "what": kind})
+    for _ in range(ctx.n(10, 100)):
+        sc, _ = gen.gen_script(ctx.rng, {"depth": 1, "max_items": 4})
+        good = gen.render(sc)
+        cands = [i for i, c in enumerate(good) if c == "|"]
+        if not cands:
+            continue
+        i = ctx.rng.choice(cands)
+        bad = good[:i] + "," + good[i + 1:]
+        ctx.count("file-replaced-at-the-same-path")
+        ctx.case(("file", good, i), nontrivial=True)
+        msg = check_file_rewrite(good, bad)
+        if msg:
+            ctx.violation("syntax stage (load from a file): " + msg, {"kind": "file_rewrite", "good": good, "bad": bad})
     listener_corr(ctx)
